@@ -178,10 +178,25 @@ def search(run, info):
         d = os.path.join(wd, "run%d" % si)
         os.makedirs(d, exist_ok=True)
         paths = []
+        # layouts: files side by side; files of one base name in different directories (what orders the sources must not be
+        # the base name alone); the latter with a declaration of file 0 declared again in file 1 (which of the two a
+        # duplicate is reported at must not change from run to run)
+        layout = si % 3
+        parts = ["\n".join(decls[i] for i in range(len(decls)) if asg[i] == j) for j in range(k)]
+        if layout == 2 and k > 1:
+            first = next((x for i, x in enumerate(unit) if asg[i] == 0 and x.kind in ("fb", "program", "type")), None)
+            if first is not None:
+                clone = ("TYPE\n  %s : (Dx1, Dx2);\nEND_TYPE\n" % first.name) if first.kind == "type" else \
+                        ("FUNCTION_BLOCK %s\nVAR q : INT; END_VAR\nq := 1;\nEND_FUNCTION_BLOCK\n" % first.name)
+                parts[1] = parts[1] + "\n" + clone
         for j in range(k):
-            p = os.path.join(d, "f%d.st" % j)
+            if layout == 0:
+                p = os.path.join(d, "f%d.st" % j)
+            else:
+                os.makedirs(os.path.join(d, "p%d" % j), exist_ok=True)
+                p = os.path.join(d, "p%d" % j, "unit.st")
             with open(p, "w", encoding="utf-8") as f:
-                f.write("\n".join(decls[i] for i in range(len(decls)) if asg[i] == j))
+                f.write(parts[j])
             paths.append(p)
         orders = list(itertools.permutations(paths))
         for rr in range(runs):
@@ -192,8 +207,13 @@ def search(run, info):
         p = subprocess.run([binp, "check"] + list(order), stdout=subprocess.PIPE, stderr=subprocess.PIPE, timeout=60)
         err = re.sub(r"\x1b\[[0-9;]*m", "", p.stderr.decode("utf-8", "replace"))
         codes = tuple(sorted(set(re.findall(r"^error\[(P\d+)\]", err, re.M))))
-        locs = tuple(sorted(set((os.path.basename(a), b, c) for a, b, c in re.findall(r"┌─ ([^\n]*?):(\d+):(\d+)", err))))
-        return p.returncode, codes, locs
+        # the primary label of each diagnostic (the first location printed after its headline), by path relative to the set
+        prim = []
+        for block in re.split(r"(?=^error\[P\d+\])", err, flags=re.M):
+            m = re.search(r"┌─ ([^\n]*?):(\d+):(\d+)", block)
+            if m:
+                prim.append((os.path.relpath(m.group(1), d) if os.path.isabs(m.group(1)) else m.group(1), m.group(2), m.group(3)))
+        return p.returncode, codes, tuple(sorted(set(prim)))
 
     with ThreadPoolExecutor(max_workers=vlib.NCPU) as ex:
         outs = list(ex.map(job, jobs))
@@ -208,8 +228,8 @@ def search(run, info):
         if len(kinds) > 1:
             ks = sorted(kinds, key=str)
             run.violation("impl-violates-property", "`ironplcc check` on the same files gives %r in one run / argument order and %r in another" % (ks[0], ks[1]),
-                          {"files": {os.path.basename(p): open(p, encoding="utf-8").read() for p in kinds[ks[0]]},
-                           "order_a": [os.path.basename(p) for p in kinds[ks[0]]], "order_b": [os.path.basename(p) for p in kinds[ks[1]]]})
+                          {"files": {"/".join(p.split(os.sep)[-2:]): open(p, encoding="utf-8").read() for p in kinds[ks[0]]},
+                           "order_a": ["/".join(p.split(os.sep)[-2:]) for p in kinds[ks[0]]], "order_b": ["/".join(p.split(os.sep)[-2:]) for p in kinds[ks[1]]]})
     return {"coverage": {
         "rule": "generated valid units and single-fault mutants of them; all permutations of the top-level declarations up to %d "
                 "declarations (24 sampled permutations beyond), all partitions into <= 3 files (30 sampled when more) in both file "
